@@ -327,8 +327,17 @@ def run_property(mod, tier, seed, only=None, jobs=None):
         results = [_worker(args[0])]
     else:
         mp = multiprocessing.get_context("fork")
+        # a case that never returns (an endless loop in the code under test) must not hang the check for good: that is an
+        # inconclusive run (exit 2), never a verdict.  The limit is far above any legitimate run (quick: 1-60 s, thorough: 1-8 min)
+        limit = float(os.environ.get("VERIF_WATCHDOG", "0")) or (1500.0 if tier == "quick" else 4 * 3600.0)
         with mp.Pool(jobs) as pool:
-            results = pool.map(_worker, args, chunksize=1)
+            pending = pool.map_async(_worker, args, chunksize=1)
+            try:
+                results = pending.get(timeout=limit)
+            except multiprocessing.TimeoutError:
+                pool.terminate()
+                sys.stderr.write("HARNESS ERROR in %s: worker processes still running after %.0f s (a case does not return); inconclusive\n" % (prop, limit))
+                return 2
     bad = [r[1] for r in results if r[0] != "ok"]
     if bad:
         sys.stderr.write("HARNESS ERROR in %s:\n%s\n" % (prop, bad[0]))
